@@ -20,11 +20,6 @@ def specBinop (f : Val → Val → Except Err Val) (a b : Operand Val) : Except 
       | _, _ => .error .index)
     mapE cells (fun d => .mat ⟨R, C, d⟩)
 
-def renderResult (k : Kind) (r : Except Err (Operand Val)) : String :=
-  match r with
-  | .error _ => "err"
-  | .ok o => operandText k o
-
 def runC01 (fields : List String) (obs : String) : String × String × String :=
   match fields with
   | ["binop", opn, kn, lt, rt, _] =>
